@@ -1,6 +1,7 @@
 import CogentModel.Json
 import CogentModel.Model.IndelMap
 import CogentModel.Model.FMap
+import CogentModel.Model.FMapOps
 import CogentModel.Spec.Gapped
 open CogentModel CogentModel.IndelMap
 
@@ -152,6 +153,52 @@ def handle (cmd : String) (j : J) : Except String J :=
        | none => [])))
   | "from_locations" => do
     pure (fexJ fmapJ (FMap.fromLocations (← parsePairs (← j.get "locs")) (← (← j.get "pl").toInt)))
+  | "spanops" => do
+    -- predicates / slicing / scaling / mirroring of one span (and of the lost span of the same length)
+    let s ← (← j.get "s").toInt
+    let e ← (← j.get "e").toInt
+    let r ← (← j.get "r").toBool
+    let os ← (← j.get "os").toInt
+    let oe ← (← j.get "oe").toInt
+    let xs ← (← j.get "xs").toListOf J.toInt
+    let ivs ← (← j.get "ivs").toListOf (fun t => do
+        match ← t.toList with
+        | [a, b] => pure (← a.toOptInt, ← b.toOptInt)
+        | _ => throw "bad interval")
+    let ks ← (← j.get "ks").toListOf J.toInt
+    let ls ← (← j.get "ls").toListOf J.toInt
+    let sp := FMap.FSp.span s e r
+    let lo := FMap.FSp.lost (e - s)
+    let b (x : Bool) := J.bool x
+    pure (J.obj [
+      ("int_preds", J.arr (xs.map fun x => J.arr [b (FMap.containsInt s e x),
+          b (decide (s < x)), b (decide (s > x)), b (decide (s = x)), b false,
+          b (decide (e < x)), b (decide (e > x)), b (decide (e = x)), b false])),
+      ("span_preds", J.arr [b (FMap.containsSpan s e os oe), b (FMap.overlapsSpan s e os oe),
+          b (decide (s < os)), b (decide (s > os)), b (decide (s = os)), b (FMap.containsInt os oe s),
+          b (decide (e < oe)), b (decide (e > oe)), b (decide (e = oe)), b (FMap.containsInt os oe e)]),
+      ("slice", J.arr (ivs.map fun (a, c) => fexJ fspJ (FMap.spanSlice sp a c))),
+      ("lost_slice", J.arr (ivs.map fun (a, c) => fexJ fspJ (FMap.spanSlice lo a c))),
+      ("at", J.arr (xs.map fun i => fexJ fspJ (FMap.spanAt sp i))),
+      ("lost_at", J.arr (xs.map fun i => fexJ fspJ (FMap.spanAt lo i))),
+      ("mul", J.arr (ks.map fun k => fspJ (sp.mul k))),
+      ("div", J.arr (ks.map fun k => fexJ fspJ (sp.truediv k))),
+      ("lost_mul", J.arr (ks.map fun k => fspJ (lo.mul k))),
+      ("lost_div", J.arr (ks.map fun k => fexJ fspJ (lo.truediv k))),
+      ("rrt", J.arr (ls.map fun l => fexJ fspJ (sp.reversedRelativeTo l))),
+      ("reversed", fspJ sp.reversed)])
+  | "fmops" => do
+    let m ← parseFMap (← j.get "m")
+    let o ← parseFMap (← j.get "o")
+    let ks ← (← j.get "ks").toListOf J.toInt
+    pure (J.obj [
+      ("mul", J.arr (ks.map fun k => fmapJ (FMap.fmMul m k))),
+      ("div", J.arr (ks.map fun k => fexJ fmapJ (FMap.fmTruediv m k))),
+      ("add", fexJ fmapJ (FMap.fmAdd m o)),
+      ("without_gaps", fmapJ (FMap.withoutGaps m)),
+      ("coords", pairsJ (FMap.getCoordinates m)),
+      ("start", J.num (FMap.fmStart m)), ("end", J.num (FMap.fmEnd m)),
+      ("covering", fexJ fmapJ (FMap.coveringSpan m))])
   | _ => throw s!"unknown command {cmd}"
 
 def main : IO Unit := driverLoop handle
